@@ -186,12 +186,15 @@ package agent
 //@   ensures[C09] forall x U :: cnt(view(merged), 0, len(merged), x) == cnt(L, 0, nl, x) + cnt(R, 0, nr, x)
 //@   ensures[C09] rpre(rk) && ordered(rk, L, 0, nl) && ordered(rk, R, 0, nr) ==> ordered(rk, view(merged), 0, len(merged))
 //@   loop 1:
-//@     invariant 0 <= leftIndex && leftIndex <= nl && 0 <= rightIndex && rightIndex <= nr && mergedIndex == leftIndex + rightIndex
+//@     invariant 0 <= leftIndex && 0 <= rightIndex && 0 <= mergedIndex && mergedIndex <= mergedLength + 1
+//@     invariant mergedIndex <= mergedLength ==> leftIndex <= nl && rightIndex <= nr && mergedIndex == leftIndex + rightIndex
 //@     invariant leftLength == nl && rightLength == nr && mergedLength == nl + nr && view(left) == L && view(right) == R
 //@     invariant forall j :: outside(merged, j) ==> rawat(merged, j) == old(rawat(merged, j))
-//@     invariant forall x U :: cnt(view(merged), 0, mergedIndex, x) == cnt(L, 0, leftIndex, x) + cnt(R, 0, rightIndex, x)
-//@     invariant rpre(rk) && ordered(rk, L, 0, nl) && ordered(rk, R, 0, nr) ==> ordered(rk, view(merged), 0, mergedIndex)
-//@     invariant rpre(rk) && ordered(rk, L, 0, nl) && ordered(rk, R, 0, nr) ==> (forall i :: 0 <= i && i < mergedIndex ==> (leftIndex < nl ==> rank(rk, view(merged)[i], L[leftIndex]) <= 1) && (rightIndex < nr ==> rank(rk, view(merged)[i], R[rightIndex]) <= 1))
+//@     invariant mergedIndex <= mergedLength ==> (forall x U :: cnt(view(merged), 0, mergedIndex, x) == cnt(L, 0, leftIndex, x) + cnt(R, 0, rightIndex, x))
+//@     invariant mergedIndex > mergedLength ==> (forall x U :: cnt(view(merged), 0, mergedLength, x) == cnt(L, 0, nl, x) + cnt(R, 0, nr, x))
+//@     invariant rpre(rk) && ordered(rk, L, 0, nl) && ordered(rk, R, 0, nr) && mergedIndex <= mergedLength ==> ordered(rk, view(merged), 0, mergedIndex)
+//@     invariant rpre(rk) && ordered(rk, L, 0, nl) && ordered(rk, R, 0, nr) && mergedIndex > mergedLength ==> ordered(rk, view(merged), 0, mergedLength)
+//@     invariant rpre(rk) && ordered(rk, L, 0, nl) && ordered(rk, R, 0, nr) && mergedIndex <= mergedLength ==> (forall i :: 0 <= i && i < mergedIndex ==> (leftIndex < nl ==> rank(rk, view(merged)[i], L[leftIndex]) <= 1) && (rightIndex < nr ==> rank(rk, view(merged)[i], R[rightIndex]) <= 1))
 //@     decreases mergedLength - mergedIndex
 
 // run structure of the bottom-up merge sort: rdiv(i, w) is the index of the run of width w that
